@@ -414,8 +414,18 @@ def oracle_c14_markers(ctx: Ctx, n=None):
         ("absorb-1", lambda a, b, c: (a & (a | b), a)), ("absorb-2", lambda a, b, c: (a | (a & b), a)),
         ("distr-1", lambda a, b, c: (a & (b | c), (a & b) | (a & c))), ("distr-2", lambda a, b, c: (a | (b & c), (a | b) & (a | c))),
     ]
+    # same-variable families: atoms and ==/!= groups over one variable (where groups collapse, cancel and absorb)
+    fam = []
+    for v, (p, q, r_) in (("sys_platform", ("linux", "darwin", "win32")), ("os_name", ("nt", "posix", "java"))):
+        items = [f'{v} == "{p}"', f'{v} != "{r_}"', f'{v} != "{p}"', f'{v} == "{p}" or {v} == "{q}"', f'{v} != "{p}" and {v} != "{q}"', f'{v} != "{q}" and {v} != "{r_}"', f'{v} in "{p} {r_}"']
+        fam.append([(t, parse(t)) for t in items])
+    triples = []
+    for items in fam:
+        for _ in range(25 if ctx.tier == "quick" else 200):
+            triples.append((rng.choice(items), rng.choice(items), rng.choice(items)))
     for _ in range(n):
-        (ta, a), (tb, b), (tc, c) = rng.choice(ms), rng.choice(ms), rng.choice(ms)
+        triples.append((rng.choice(ms), rng.choice(ms), rng.choice(ms)))
+    for (ta, a), (tb, b), (tc, c) in triples:
         envs = mg.env_grid([ta, tb, tc], rng, limit=10)
         for lname, f in laws:
             ok, lr = safe(ctx, "oracle-C14m", lambda: f(a, b, c))
